@@ -13,6 +13,9 @@ func main() {
 		case "child-run":
 			crashlib.ChildRun(os.Args[2:])
 			return
+		case "child-conc":
+			crashlib.ChildConc(os.Args[2:])
+			return
 		case "child-recover":
 			crashlib.ChildRecover(os.Args[2:])
 			return
